@@ -10,6 +10,7 @@ structure DS where
   why : String := ""
   impl : List TEv := []              -- reversed: the implementation's event log
   badTr : Option String := none
+  callPanics : Nat := 0              -- `tr callpanic`: a Shutdown() call panicked in its caller's goroutine
 
 def variant : Variant := .fixed
 
@@ -105,6 +106,7 @@ def handler : Handler DS where
       | none => { d with badTr := some g }
     | ["tr", "prov"] => { d with impl := .prov :: d.impl }
     | "tr" :: "call" :: _ => { d with impl := .call :: d.impl }
+    | ["tr", "callpanic"] => { d with callPanics := d.callPanics + 1 }
     | ["tr", "quiet"] => { d with impl := .quiet :: d.impl }
     | ["tr", "stop", _] => { d with impl := .stop :: d.impl }
     | ["tr", "stopev", _] => { d with impl := .stop :: d.impl }
@@ -114,9 +116,12 @@ def handler : Handler DS where
     match d.badTr with
     | some b => [s!"prop trace=FAIL sig=C20/harness/unparsable-trace {b}"]
     | none =>
-      match checkE d.impl.reverse with
+      (match checkE d.impl.reverse with
       | .ok _ => ["prop trace=ok"]
-      | .error b => [s!"prop trace=FAIL sig={b.sig}"]
+      | .error b => [s!"prop trace=FAIL sig={b.sig}"]) ++
+      -- "safe from any goroutine": the model's `close` never panics in the caller (C20_no_caller_panic); the implementation's did
+      (if d.callPanics = 0 then ["prop callsafe=ok"]
+       else [s!"prop callsafe=FAIL sig=C20/shutdown/concurrent-call-panicked panics={d.callPanics}"])
 
 end OtelVerif.Drivers.C20
 
